@@ -220,16 +220,39 @@ func (mng *Manager) handleModuleUpdate(m *modules.Module) {
 	subsys.Lock()
 	defer subsys.Unlock()
 
-	updated := compareAndUpdateStatus(m, ms)
-	if updated {
-		subsys.makeSummary()
+	mng.publishIfUpdated(subsys, compareAndUpdateStatus(m, ms))
+}
+
+// publishIfUpdated recomputes the summary of an updated subsystem and pushes
+// it to subscribers. The subsystem must be locked.
+func (mng *Manager) publishIfUpdated(subsys *Subsystem, updated bool) {
+	if !updated {
+		return
 	}
 
-	if updated {
-		// Subscribers are matched by key, which is otherwise only set when
-		// the record is read for the first time.
-		mng.ensureKey(subsys)
-		mng.pushUpdate(subsys)
+	subsys.makeSummary()
+
+	// Subscribers are matched by key, which is otherwise only set when
+	// the record is read for the first time.
+	mng.ensureKey(subsys)
+	mng.pushUpdate(subsys)
+}
+
+// refreshModuleStates brings the module states of all subsystems up to date.
+// The enabled state of a module changes without any change notification by
+// the module, e.g. when a module that is not running is enabled or disabled.
+// The manager must be (read) locked.
+func (mng *Manager) refreshModuleStates() {
+	for _, subsys := range mng.subsys {
+		subsys.Lock()
+		updated := false
+		for _, ms := range subsys.Modules {
+			if compareAndUpdateStatus(ms.module, ms) {
+				updated = true
+			}
+		}
+		mng.publishIfUpdated(subsys, updated)
+		subsys.Unlock()
 	}
 }
 
@@ -258,7 +281,9 @@ func (mng *Manager) handleConfigChanges(_ context.Context) error {
 		return nil
 	}
 
-	return modules.ManageModules()
+	err := modules.ManageModules()
+	mng.refreshModuleStates()
+	return err
 }
 
 func (mng *Manager) findParentSubsystem(m *modules.Module) (*Subsystem, *ModuleStatus) {
